@@ -3007,22 +3007,38 @@ def simplify_collection_unpacks(source: str) -> str:
 @processing.fix
 def remove_duplicate_dict_keys(source: str) -> str:
     root = core.parse(source)
+    safe_callables = parsing.safe_callable_names(root)
 
     for node in core.walk(root, ast.Dict):
-        key_occurences = collections.defaultdict(set)
+        key_occurences = collections.defaultdict(list)
         for i, key in enumerate(node.keys):
             if isinstance(key, ast.Constant):
-                key_occurences[key.value].add(i)
+                key_occurences[key.value].append(i)
 
-        keys = []
-        values = []
-        for i, (key, value) in enumerate(zip(node.keys, node.values)):
-            if not isinstance(key, ast.Constant) or i == max(key_occurences[key.value]):
-                keys.append(key)
-                values.append(value)
+        # A dict display keeps the first key (object and position) and the last value of equal keys.
+        values = list(node.values)
+        removed = set()
+        for occurences in key_occurences.values():
+            if len(occurences) < 2:
+                continue
+            first, last = occurences[0], occurences[-1]
+            # Anything in between that could be equal to the key, or that could observe the order
+            # of evaluation, prevents moving the last value to the first position.
+            if not all(isinstance(key, ast.Constant) for key in node.keys[first : last + 1]):
+                continue
+            if any(
+                core.has_side_effect(value, safe_callables)
+                for value in node.values[first : last + 1]
+            ):
+                continue
+            values[first] = node.values[last]
+            removed.update(occurences[1:])
 
-        if len(keys) < len(node.keys):
-            yield node, ast.Dict(keys=keys, values=values)
+        if removed:
+            yield node, ast.Dict(
+                keys=[key for i, key in enumerate(node.keys) if i not in removed],
+                values=[value for i, value in enumerate(values) if i not in removed],
+            )
 
 
 @processing.fix
